@@ -97,7 +97,29 @@ func TestC18(t *testing.T) {
 		for i := 0; i < pre; i++ {
 			sc.Steps = append(sc.Steps, Step{Op: "srcSet", I: rapid.IntRange(0, 3).Draw(rt, "slot"), J: rapid.IntRange(0, 6).Draw(rt, "val")})
 		}
-		sc.Steps = append(sc.Steps, Step{Op: "createTemplate", OT: genOTSpec(rt, cluster)})
+		spec0 := genOTSpec(rt, cluster)
+		// family: PKO on a HyperShift management cluster - the environment a template sees depends on the namespace it lives
+		// in (the hosted cluster that namespace belongs to); a second template in the other namespace is reconciled in between
+		hyperShift := rapid.IntRange(0, 3).Draw(rt, "hypershift") == 0
+		hcSteps := func() {
+			switch rapid.IntRange(0, 3).Draw(rt, "hcstep") {
+			case 0:
+				sc.Steps = append(sc.Steps, Step{Op: "hostedCluster", I: rapid.IntRange(0, 1).Draw(rt, "hc"), On: rapid.IntRange(0, 2).Draw(rt, "hcon") > 0})
+			case 1:
+				sc.Steps = append(sc.Steps, Step{Op: "setHyperShift", On: rapid.IntRange(0, 3).Draw(rt, "hson") > 0})
+			default:
+				// the template of the other namespace gets its pass (index 1 of the controller's objects: "ot" < "ot2")
+				sc.Steps = append(sc.Steps, Step{Op: "reconcile", Ctrl: engine.CtrlObjectTemplate, I: 1})
+			}
+		}
+		if hyperShift {
+			spec0.Fields = append(spec0.Fields, OTField{DataKey: "hc9", Expr: "hc"})
+			sc.Steps = append(sc.Steps, Step{Op: "setHyperShift", On: true}, Step{Op: "createTemplate2"})
+			for i := rapid.IntRange(0, 2).Draw(rt, "nhc0"); i > 0; i-- {
+				sc.Steps = append(sc.Steps, Step{Op: "hostedCluster", I: rapid.IntRange(0, 1).Draw(rt, "hc0"), On: true})
+			}
+		}
+		sc.Steps = append(sc.Steps, Step{Op: "createTemplate", OT: spec0})
 		if rapid.IntRange(0, 5).Draw(rt, "failfirst") == 0 {
 			// the template's first passes all fail on some API call, then it is deleted before any pass succeeded
 			for i := rapid.IntRange(1, 3).Draw(rt, "nfail"); i > 0; i-- {
@@ -107,6 +129,10 @@ func TestC18(t *testing.T) {
 		}
 		n := rapid.IntRange(3, 24).Draw(rt, "nsteps")
 		for i := 0; i < n; i++ {
+			if hyperShift && rapid.IntRange(0, 2).Draw(rt, "hcturn") == 0 {
+				hcSteps()
+				continue
+			}
 			switch k := rapid.IntRange(0, 14).Draw(rt, "kind"); {
 			case k == 14:
 				// an API call of the next pass fails (plain error or a status answer: 500, 429, 503, timeout)
